@@ -116,13 +116,17 @@ Definition check_if_condition := check_if_condition_gen true.
 Definition check_if_condition_old := check_if_condition_gen false.
 
 (* checkRawYAMLString (matrix values).  [fixed] = with repo_patches/pos/02
-   (RawYAMLString carries Quoted); before, false was passed. *)
+   (RawYAMLString carries Quoted); without it false is passed. *)
 Definition check_raw_yaml_string_gen (fixed : bool) (y : ystr) : list fpos :=
   let o := check_exprs_in (ys_val y) (ys_line y) (ys_col y) (andb fixed (ys_quoted y)) in
   map snd (lo_diags o).
 
-Definition check_raw_yaml_string := check_raw_yaml_string_gen true.
-Definition check_raw_yaml_string_old := check_raw_yaml_string_gen false.
+(* The code as it is passes quoted = false (RawYAMLString has no Quoted flag).
+   The repair (repo_patches/pos/02) adds a struct field, which breaks an
+   unkeyed composite literal in the project's own test-suite, so it is NOT
+   applied: recorded finding, see known_findings.d/C07.json. *)
+Definition check_raw_yaml_string := check_raw_yaml_string_gen false.
+Definition check_raw_yaml_string_repaired := check_raw_yaml_string_gen true.
 
 End Loop.
 
